@@ -20,7 +20,15 @@ RULE = ("scenario = platform (4 optional size/photon constraints, subset of {pro
         "ONE processor with one change in between (a circuit parameter's value set without structural change, input, "
         "noise, filter, post-selection, herald, iteration) while the server accepts, refuses, or registers the request "
         "and then drops the connection / lets the read time out; the number of requests received and of jobs existing "
-        "server-side is compared after every event. Another stream runs Job._handle_params on arbitrary names, "
+        "server-side is compared after every event. A routes stream reaches every request field by every route the "
+        "API offers: the filter through the processor's setter, the experiment object, the LogicalState default, an "
+        "assigned experiment, a user parameter named like it, each before / after clear_parameters and before / "
+        "after conversion, filter 0; parameters through set_parameter before / after clear_parameters; noise through "
+        "the constructor, the attribute, an assigned experiment; input through BasicState, LogicalState, an assigned "
+        "experiment; the routes are also operations of the random sessions and are counted (route.*) in the "
+        "histogram. The model's payload is computed from the processor's reported state (filter of the experiment, "
+        "current parameter dict), and the processor's parameter dict is compared white-box after construction and "
+        "at the end. Another stream runs Job._handle_params on arbitrary names, "
         "presets, positional and keyword arguments. Non-trivial: at least one request reached the server or a "
         "conversion/constraint/argument check refused the scenario; distinct by the full scenario tree.")
 TRUSTED = ["model: coq/Model/Payload.v, PayloadX.v (hand-written; tied by this correspondence stream)",
@@ -35,6 +43,11 @@ ASSUMPTIONS = ["circuits, noise models and post-selection expressions are carrie
                "request carries their value at execution time, every other field its value at job creation; the "
                "model and the theorems state exactly this",
                "phase noise (phase_imprecision / phase_error) is not generated: the statement sets it aside",
+               "an experiment assigned to a RemoteProcessor is given the platform's name: AProcessor.name is the "
+               "experiment's name and prepare_job_payload sends it as 'platform_name' (an assigned experiment with its "
+               "default name would address the job to a platform called 'Experiment'; outside the statement)",
+               "StateVector / SVDistribution inputs are not generated: prepare_job_payload refuses them "
+               "(len() of a distribution is compared with the mode count; remove_modes does not exist on them)",
                "photon-count constraints are those the code checks: photons on the modes of interest + expected herald "
                "photons; when add_herald is called after with_input the stored input is older than the herald and its "
                "own photon count can differ (counted in the histogram, not judged)"]
